@@ -43,7 +43,7 @@ def run(chk):
     gen = L.Gen(rng, chk)
 
     # ------------------------------------------------------------------ inputs
-    n_gen = 1500 if quick else 40000
+    n_gen = 4500 if quick else 60000
     cases = []      # (text, expected obj, style, nchains, crosslink)
     for i in range(n_gen):
         style = [False, True, 'mixed'][i % 3]
@@ -67,6 +67,8 @@ def run(chk):
     def ok_with_mod(c, im):
         return im[:1] in 'AM' and ('L' in im or 'D' in im or 'V' in im)
 
+    reach = L.Reach()
+    reach.__enter__()
     chk.correspond('parse', DRV, strings + muts, lambda s: 'parse\t1\t' + esc(s), L.impl_parse,
                    compare=L.same_reply, nontrivial_fn=ok_with_mod)
 
@@ -133,6 +135,45 @@ def run(chk):
 
     chk.correspond('convert_type', DRV, conv, lambda s: 'convert\t' + esc(s), L.impl_convert, compare=conv_same,
                    nontrivial_fn=lambda c, im: im[0] in 'if')
+    reach.__exit__()
+    chk.notes.append({'reach_of_modelled_functions_during_correspondence': reach.report()})
+
+    # ------------------------------------------------------------------ oracle 0: what a modification text denotes (independent reading)
+    import re as _re
+    INT_RE = _re.compile(r'^[ \t\n\r\x0b\x0c]*[+-]?[0-9]+(_[0-9]+)*[ \t\n\r\x0b\x0c]*$')
+    FLT_RE = _re.compile(r'^[ \t\n\r\x0b\x0c]*[+-]?((([0-9]+(_[0-9]+)*)(\.([0-9]+(_[0-9]+)*)?)?|\.[0-9]+(_[0-9]+)*)([eE][+-]?[0-9]+(_[0-9]+)*)?'
+                      r'|[iI][nN][fF]([iI][nN][iI][tT][yY])?|[nN][aA][nN])[ \t\n\r\x0b\x0c]*$')
+    from fractions import Fraction
+    from peptacular.util import convert_type
+
+    def o_value(t):
+        """a mod text denotes an int iff it is a decimal integer literal, a float iff it is a decimal/exponent literal, else itself"""
+        got = convert_type(t)
+        if INT_RE.match(t):
+            want = int(t.strip().replace('_', ''))          # digits only: exact
+            if type(got) is not int or got != want:
+                return f'convert_type({t!r}) = {got!r}, the text denotes the integer {want}'
+        elif FLT_RE.match(t):
+            if type(got) is not float:
+                return f'convert_type({t!r}) = {got!r} ({type(got).__name__}), the text denotes a float'
+            body = t.strip().replace('_', '').lower()
+            if 'inf' not in body and 'nan' not in body:
+                m = _re.match(r'^([+-]?)([0-9]*)\.?([0-9]*)(?:e([+-]?[0-9]+))?$', body)
+                sign, ip, fp, ex = m.groups()
+                ex = int(ex or 0)
+                if abs(ex) < 400:
+                    exact = Fraction(int((ip + fp) or '0')) * Fraction(10) ** (ex - len(fp))
+                    if sign == '-':
+                        exact = -exact
+                    if abs(exact) < Fraction(10) ** 300 and (exact == 0 or abs(exact) > Fraction(1, 10 ** 300)):
+                        if got != float(exact) :
+                            return f'convert_type({t!r}) = {got!r}, the nearest double of the denoted decimal is {float(exact)!r}'
+        else:
+            if got != t or type(got) is not str:
+                return f'convert_type({t!r}) = {got!r}, the text is not a number and denotes itself'
+        return None
+
+    chk.oracle('value_denotation', conv, o_value, nontrivial_fn=lambda t: bool(INT_RE.match(t) or FLT_RE.match(t)))
 
     # ------------------------------------------------------------------ oracle 1: expected structure
     def o_expected(c):
@@ -172,7 +213,7 @@ def run(chk):
                 return f'include_plus={plus}: serialize is not a fixpoint: {t!r} -> {t2!r}'
         return None
 
-    rt_strings = corpus_strings + tests + [c[0] for c in cases]
+    rt_strings = [s for s in corpus_strings if L.impl_parse(s)[:1] in 'AM'] + tests + [c[0] for c in cases]
     chk.oracle('roundtrip', rt_strings, o_roundtrip, nontrivial_fn=lambda s: any(ch in s for ch in '[{<(/+'))
 
     # any accepted string whose parse result is canonical (decided by the Lean predicate) must round-trip as well
